@@ -17,6 +17,8 @@ Interfaces: has_*_marker(line) -> bool for each marker type
 Implementation: String-based pattern detection with case-insensitive matching
 """
 
+import re
+
 
 def has_ignore_directive_marker(line: str) -> bool:
     """Check if line contains a file-level ignore directive marker.
@@ -52,6 +54,18 @@ def has_line_ignore_marker(code: str) -> bool:
         or "// thailint: ignore" in code_lower
         or "// design-lint: ignore" in code_lower
     )
+
+
+_SAME_LINE_IGNORE = re.compile(r"(?:thailint|design-lint):\s*ignore(?![-\w])", re.IGNORECASE)
+
+
+def has_same_line_ignore_directive(line: str) -> bool:
+    """Check if the line carries a same-line directive (`ignore` or `ignore[rules]`).
+
+    `ignore-next-line`, `ignore-start`, `ignore-end` and `ignore-file` are other directives
+    with scopes of their own: on the line of a finding they do not suppress that finding.
+    """
+    return _SAME_LINE_IGNORE.search(line) is not None
 
 
 def has_ignore_next_line_marker(line: str) -> bool:
